@@ -322,7 +322,9 @@ def check(prog, src, lidx, variant, schedule):
     lvars = {lp.variable.name.lower() for lp in loop.walk(Loop)}
     if loop2 is not None:
         lvars |= {lp.variable.name.lower() for lp in loop2.walk(Loop)}
-    priv = (set(clauses["private"]) | set(clauses["firstprivate"])) - lvars
+    # (loop variables included: the value of a parallel loop's iteration
+    # variable after the region is unspecified as well)
+    priv = set(clauses["private"]) | set(clauses["firstprivate"]) | lvars
     after = set()
     node = directive
     while node is not None and node.parent is not None:
